@@ -14,7 +14,7 @@ def regenerate_all(svh=None):
         svh = core.Svh('o1')
     gatetable.regenerate(svh)
     gen_pauliref.generate()
-    for name in ('gen_frame', 'gen_revtrack', 'gen_prepend', 'gen_simplify', 'gen_revmeas', 'gen_framemeas', 'gen_eanoise', 'gen_framenoise', 'gen_paulichan', 'gen_herald', 'gen_elsechain', 'gen_tabmeas', 'gen_intread', 'gen_graphedges', 'gen_demsampler', 'gen_simpsegs', 'gen_adderror', 'gen_avoid', 'gen_brb', 'gen_misc'):
+    for name in ('gen_frame', 'gen_revtrack', 'gen_prepend', 'gen_simplify', 'gen_revmeas', 'gen_framemeas', 'gen_eanoise', 'gen_framenoise', 'gen_paulichan', 'gen_herald', 'gen_elsechain', 'gen_tabmeas', 'gen_intread', 'gen_graphedges', 'gen_demsampler', 'gen_simpsegs', 'gen_adderror', 'gen_avoid', 'gen_brb', 'gen_triinv', 'gen_misc'):
         try:
             mod = __import__('vlib.' + name, fromlist=['generate'])
         except ImportError:
